@@ -1,0 +1,79 @@
+//! `cfg(libp2p_verif)` hooks for the verification harness (properties C38, C37): a routing table
+//! over raw 256-bit keys (`KBucketsTable<KeyBytes, u32>`), so that every bucket — including
+//! bucket 0 — can be populated, and the order produced by `ClosestBucketsIter`.
+//! Only calls existing items.
+
+use super::*;
+
+/// Outcome of `VerifTable::insert` (the `Entry` the key resolved to, and the `InsertResult`).
+#[derive(Debug, Clone, PartialEq, Eq)]
+pub enum VerifInsert {
+    /// `KBucketsTable::entry` returned `None` (the key is the local key).
+    Local,
+    /// `Entry::Present`
+    Present,
+    /// `Entry::Pending`
+    PendingPresent,
+    /// `Entry::Absent` + `InsertResult::Inserted`
+    Inserted,
+    /// `Entry::Absent` + `InsertResult::Full`
+    Full,
+    /// `Entry::Absent` + `InsertResult::Pending { disconnected }`
+    Pending(KeyBytes),
+}
+
+pub struct VerifTable {
+    pub(super) inner: KBucketsTable<KeyBytes, u32>,
+}
+
+impl VerifTable {
+    pub fn new(local_key: KeyBytes, bucket_size: NonZeroUsize, pending_timeout: Duration) -> Self {
+        let mut config = KBucketConfig::default();
+        config.set_bucket_size(bucket_size);
+        config.set_pending_timeout(pending_timeout);
+        VerifTable {
+            inner: KBucketsTable::new(local_key, config),
+        }
+    }
+
+    pub fn local_key(&self) -> KeyBytes {
+        *self.inner.local_key()
+    }
+
+    /// `table.entry(key)` and, if absent, `AbsentEntry::insert(value, status)`.
+    pub fn insert(&mut self, key: &KeyBytes, value: u32, status: NodeStatus) -> VerifInsert {
+        match self.inner.entry(key) {
+            None => VerifInsert::Local,
+            Some(Entry::Present(..)) => VerifInsert::Present,
+            Some(Entry::Pending(..)) => VerifInsert::PendingPresent,
+            Some(Entry::Absent(e)) => match e.insert(value, status) {
+                InsertResult::Inserted => VerifInsert::Inserted,
+                InsertResult::Full => VerifInsert::Full,
+                InsertResult::Pending { disconnected } => VerifInsert::Pending(disconnected),
+            },
+        }
+    }
+
+    /// `KBucketsTable::closest_keys(target).collect()`
+    pub fn closest_keys(&mut self, target: &KeyBytes) -> Vec<KeyBytes> {
+        self.inner.closest_keys(target).collect()
+    }
+
+    /// `KBucketsTable::closest(target).collect()` as `(key, value, status)`
+    pub fn closest(&mut self, target: &KeyBytes) -> Vec<(KeyBytes, u32, NodeStatus)> {
+        self.inner
+            .closest(target)
+            .map(|e| (e.node.key, e.node.value, e.status))
+            .collect()
+    }
+
+    /// `KBucketsTable::count_nodes_between(target)`
+    pub fn count_nodes_between(&mut self, target: &KeyBytes) -> usize {
+        self.inner.count_nodes_between(target)
+    }
+}
+
+/// The bucket indices produced by `ClosestBucketsIter::new(distance)`, in order.
+pub fn closest_buckets_order(distance: Distance) -> Vec<usize> {
+    ClosestBucketsIter::new(distance).map(|i| i.get()).collect()
+}
